@@ -74,6 +74,19 @@ def readVarstr (s : Bytes) : Option (Bytes × Bytes) :=
   | none => none
   | some (n, r) => if n < 2 ^ 63 then some (r.take n, r.drop n) else none
 
+/-- a comparison whose operator is data re-extracted from the source (Python `ast` operator
+    class names); an unknown operator never holds -/
+def cmpOp (op : String) (a b : Nat) : Bool :=
+  if op = "Lt" then a < b else if op = "LtE" then a ≤ b
+  else if op = "Gt" then a > b else if op = "GtE" then a ≥ b
+  else if op = "Eq" then a == b else if op = "NotEq" then a != b else false
+
+/-- the `i`-th extracted comparison of a function applied to `x` (`x OP constant`) -/
+def cmpAt (tbl : List (String × Nat)) (i : Nat) (x : Nat) : Bool :=
+  match tbl[i]? with
+  | some (op, v) => cmpOp op x v
+  | none => false
+
 /-- bytes.strip(b"\x00") -/
 def stripZeros (b : Bytes) : Bytes :=
   ((b.dropWhile (· = 0)).reverse.dropWhile (· = 0)).reverse
